@@ -55,6 +55,10 @@ CLAIMS = {
          "_SELECT KEY / UNIQUE directives naming unknown columns through sql.NewTable and sqlcrud.generateTable. Sweeps: typescript, dart (incl. Generate), SQL validators, gounions, randdata on every analysis.Type skeleton "
          "of depth<=1 (quick) / 2 (thorough) over the nine node kinds. NOT decided: the full statement over all well-typed packages (createType on arbitrary go/types graphs, unbounded recursion, packages.Load).",
          "DESIGN.md section 4 (C18)", ""),
+ "C02": ("Bug hunting only for the headline (the round trip itself runs through encoding/json's reflection, which is not encoded). Decided wire-format text clauses: the shadow struct generated for a struct holding a union keeps every field under its name, "
+         "with its type (the union replaced by <U>Wrapper) and its struct tag (symbolic names and json tags, with/without omitempty), and both methods copy every field; jsonForUnion uses the keys Kind/Data with one case per member and the Go member name as Kind; "
+         "the TypeScript union type, the Dart union routines and the SQL validator use the same Go member names under Kind/Data (symbolic member names). Text is compared up to white space.",
+         "DESIGN.md section 5 (C02)", ""),
  "C01": ("Bug hunting only for the headline (type-checking of the generated Go needs the Go type checker as oracle, which is not encoded): exit 0 means none of the encoded mechanisms breaks compilation within the bounds. Decided clauses, all necessary for "
          "'compiles': randdata function names are distinct for distinct named types (symbolic package and type names); for every type skeleton of depth<=2 every rand<ID>() called is defined and none is defined twice; the enum choice literal lists exactly the exported "
          "constants with no empty element; gounions Kind constants are distinct across two unions (symbolic names); every selector on a table value in the CRUD code names an existing field (primary key spelled Id or ID). Two naming collisions are listed known findings.",
